@@ -109,12 +109,15 @@ def tarMember (filt : Filter) (root : Str) (it : Item) : Except Str Member :=
   | .other => .error it.final
 
 /-- `zip_archive_generator`: directories end in `/`, a symlink becomes a text
-member `<name>.lnk` holding the target, every file has mode 0644, unknown
-kinds are silently skipped -/
-def zipMember (filt : Filter) (root : Str) (it : Item) : Option Member :=
+member `<name>.lnk` holding the target, unknown kinds are silently skipped.
+`keepExec = false` is the exporter as found (every file has mode 0644: the
+executable bit is lost, see the finding `zip-exec-bit-dropped`); `true` is the
+exporter that records mode 0755 for executable files.  The check selects the
+variant by probing the code under test. -/
+def zipMember (keepExec : Bool) (filt : Filter) (root : Str) (it : Item) : Option Member :=
   let name := pathjoin root it.final
   match it.ent.kind with
-  | .file => some ⟨name, .file, filt it.ent.path it.ent.content, false, []⟩
+  | .file => some ⟨name, .file, filt it.ent.path it.ent.content, keepExec && it.ent.exec, []⟩
   | .dir => some ⟨name ++ ['/'], .dir, [], false, []⟩
   | .symlink => some ⟨name ++ ".lnk".toList, .file, utf8 it.ent.target, false, []⟩
   | .other => none
@@ -134,8 +137,8 @@ def tarMembers (filt : Filter) (root : Str) (its : List Item) : Except Str (List
 def dirMembers (filt : Filter) (its : List Item) : Except Str (List Member) :=
   its.mapM (dirMember filt)
 
-def zipMembers (filt : Filter) (root : Str) (its : List Item) : List Member :=
-  its.filterMap (zipMember filt root)
+def zipMembers (keepExec : Bool) (filt : Filter) (root : Str) (its : List Item) : List Member :=
+  its.filterMap (zipMember keepExec filt root)
 
 /-- extensions in registration order (`archive.format_registry`) -/
 def extensions : List Str :=
